@@ -113,6 +113,84 @@ var engineCases = []engineCase{
 	{"zzMinWrongDirection", "T", map[string]probeWant{"a": {"<=>", ""}, "b": {"<=", ">"}}},
 }
 
+// engineNames: the canonical names under which the arguments of zzUse(…) are seen, in call order per root.
+var engineNames = []struct {
+	fn   string
+	want []string
+}{
+	{"zzNameStale", []string{"@r.currentTerm"}},
+	{"zzNameFresh", []string{"r.currentTerm"}},
+	{"zzNameUsedBeforeAndAfter", []string{"@r.currentTerm", "@r.currentTerm"}}, // flow-insensitive: one name per value
+	{"zzNameWindow", []string{"@r.currentTerm"}},
+	{"zzNameObserver", []string{"@r.log.LastIndex()"}},
+	{"zzNameParam", []string{"@r.currentTerm"}},
+	{"zzNameParamFresh", []string{"r.currentTerm"}},
+	{"zzNameArithmetic", []string{"(1 + @r.currentTerm)"}},
+	{"zzNameIncrementInPlace", []string{"r.currentTerm"}},
+	{"zzNameMessageField", []string{"p0.Term"}},
+	{"zzNameLoopCarried", []string{"@r.currentTerm"}},
+	{"zzNameDeferred", []string{"@r.currentTerm"}},
+	{"zzNameStructLocal", []string{"@r.snapshot.Metadata().LastIncludedIndex"}},
+	{"zzNameStructLocalFresh", []string{"r.snapshot.Metadata().LastIncludedIndex"}},
+	{"zzNameSpilledLocal", []string{"!r.currentTerm"}},
+	{"zzNameClosureInside", []string{"@r.currentTerm"}},
+}
+
+func TestEngineValueNames(t *testing.T) {
+	dir := engineScratch(t)
+	p, err := Load(dir)
+	if err != nil {
+		t.Fatalf("load: %v", err)
+	}
+	for _, c := range engineNames {
+		root := p.Func("(*Raft)." + c.fn)
+		if root == nil {
+			t.Errorf("%s: function not found", c.fn)
+			continue
+		}
+		var got []string
+		a := NewAnalysis(p, NewSpace())
+		a.Hook = func(a *Analysis, f *Frame, in ssa.Instruction, st State) State {
+			call, ok := in.(ssa.CallInstruction)
+			if !ok {
+				return st
+			}
+			if _, isDefer := in.(*ssa.Defer); isDefer && !a.AtRunDefers {
+				return st
+			}
+			callee := call.Common().StaticCallee()
+			if callee == nil || callee.Name() != "zzUse" {
+				return st
+			}
+			got = append(got, p.Canon(f, call.Common().Args[0]).S)
+			return st
+		}
+		a.Run(root, nil)
+		// a loop is visited more than once: compare the set of names
+		uniq := func(xs []string) string {
+			m := map[string]bool{}
+			for _, x := range xs {
+				m[x] = true
+			}
+			var out []string
+			for x := range m {
+				out = append(out, x)
+			}
+			sort.Strings(out)
+			return strings.Join(out, " | ")
+		}
+		if len(c.want) == 1 && strings.HasPrefix(c.want[0], "!") {
+			if uniq(got) == c.want[0][1:] || len(got) == 0 {
+				t.Errorf("%s: zzUse argument is named {%s}, which claims the current contents of memory", c.fn, uniq(got))
+			}
+			continue
+		}
+		if uniq(got) != uniq(c.want) {
+			t.Errorf("%s: zzUse arguments are named {%s}, want {%s}", c.fn, uniq(got), uniq(c.want))
+		}
+	}
+}
+
 func engineScratch(t *testing.T) string {
 	repo := os.Getenv("REPO")
 	if repo == "" {
